@@ -118,18 +118,110 @@ def cplx(s):
 
 def apply_call(m, call):
     s = cplx(call['strength'])
-    if call['api'] == 'local':
-        m.add_local_term(s, [(w, tuple(idx)) for w, idx in call['term']], plus_hc=call['plus_hc'])
-    elif call['api'] == 'coupling':
-        m.add_coupling(s, call['u1'], call['op1'], call['u2'], call['op2'], call['dx'], plus_hc=call['plus_hc'])
+    api = call['api']
+    kw = {}
+    if call.get('category'):
+        kw['category'] = call['category']
+    if api == 'local':
+        m.add_local_term(s, [(w, tuple(idx)) for w, idx in call['term']], plus_hc=call['plus_hc'], **kw)
+    elif api == 'coupling':
+        if 'op_string' in call:
+            kw['op_string'] = call['op_string']
+        st = s
+        if call.get('strength_array'):
+            st = s * np.array(call['strength_array'], float)
+        m.add_coupling(st, call['u1'], call['op1'], call['u2'], call['op2'], call['dx'], plus_hc=call['plus_hc'], **kw)
+    elif api == 'multi':
+        m.add_multi_coupling(s, [(w, dx, u) for w, dx, u in call['ops']], plus_hc=call['plus_hc'], **kw)
+    elif api == 'onsite':
+        m.add_onsite(s, call['u'], call['op'], plus_hc=call['plus_hc'], **kw)
+    elif api == 'onsite_term':
+        m.add_onsite_term(s, call['i'], call['op'], plus_hc=call['plus_hc'], **kw)
+    elif api == 'coupling_term':
+        m.add_coupling_term(s, call['i'], call['j'], call['op_i'], call['op_j'], call['op_string'], plus_hc=call['plus_hc'], **kw)
+    elif api == 'multi_term':
+        m.add_multi_coupling_term(s, call['ijkl'], call['ops'], call['op_string'], plus_hc=call['plus_hc'],
+                                  switchLR=call.get('switchLR', 'middle_i'), **kw)
+    elif api == 'exp':
+        m.add_exponentially_decaying_coupling(s, cplx(call['lambda']), call['op_i'], call['op_j'], plus_hc=call['plus_hc'])
     else:
-        m.add_multi_coupling(s, [(w, dx, u) for w, dx, u in call['ops']], plus_hc=call['plus_hc'])
+        raise KeyError(api)
+
+
+PLAIN_APIS = ('onsite_term', 'coupling_term', 'multi_term')   # literal operator strings, no automatic Jordan-Wigner
+
+
+def plain_product(orc, entries):
+    """kron of the given local operator words, identity elsewhere; no strings added (`entries`: {site: word})"""
+    fac = []
+    for k in range(orc.L):
+        if k in entries:
+            fac.append(orc.local(k, entries[k])[0])
+        else:
+            fac.append(np.eye(orc.dims[k]))
+    return cc.kron_all(fac)
+
+
+def call_dense(orc, call, n, Lx):
+    """(T, odd, number of elementary terms): the operator the call stands for, without the h.c. part"""
+    s = cplx(call['strength'])
+    api = call['api']
+    T = np.zeros((orc.D, orc.D), complex)
+    if api == 'onsite':
+        odd = c12_jw.word_is_odd(call['op'])
+        for x in range(Lx):
+            T += s * orc.image(x * n + call['u'], call['op'])[0]
+        return T, odd, Lx
+    if api == 'onsite_term':
+        return s * plain_product(orc, {call['i']: call['op']}), False, 1
+    if api == 'coupling_term':
+        ent = {call['i']: call['op_i'], call['j']: call['op_j']}
+        for k in range(call['i'] + 1, call['j']):
+            ent[k] = call['op_string']
+        return s * plain_product(orc, ent), False, 1
+    if api == 'multi_term':
+        ijkl, ops, strs = call['ijkl'], call['ops'], call['op_string']
+        if isinstance(strs, str):
+            strs = [strs] * (len(ijkl) - 1)
+        ent = dict(zip(ijkl, ops))
+        for a, b, st in zip(ijkl, ijkl[1:], strs):
+            for k in range(a + 1, b):
+                ent[k] = st
+        return s * plain_product(orc, ent), False, 1
+    if api == 'exp':
+        lam = cplx(call['lambda'])
+        odd = c12_jw.word_is_odd(call['op_i']) != c12_jw.word_is_odd(call['op_j'])
+        cnt = 0
+        for i in range(orc.L):
+            for j in range(i + 1, orc.L):
+                T += s * lam ** (j - i) * orc.term([[call['op_i'], i], [call['op_j'], j]])[0]
+                cnt += 1
+        return T, odd, cnt
+    odd = False
+    cnt = 0
+    arr = call.get('strength_array')
+    for k, term in enumerate(call_terms(call, n, Lx)):
+        mat, parity = orc.term(term)
+        odd |= parity
+        T += s * (arr[k] if arr else 1.0) * mat
+        cnt += 1
+    return T, odd, cnt
 
 
 def call_terms(call, n, Lx):
     """the products the call stands for, as lists [(word, mps index), ...] in the order written (own geometry)"""
     if call['api'] == 'local':
         return [[[w, idx[0] * n + idx[1]] for w, idx in call['term']]]
+    if call['api'] == 'onsite':
+        return [[[call['op'], x * n + call['u']]] for x in range(Lx)]
+    if call['api'] == 'onsite_term':
+        return [[[call['op'], call['i']]]]
+    if call['api'] == 'coupling_term':
+        return [[[call['op_i'], call['i']], [call['op_j'], call['j']]]]
+    if call['api'] == 'multi_term':
+        return [[[w, i] for w, i in zip(call['ops'], call['ijkl'])]]
+    if call['api'] == 'exp':
+        return [[[call['op_i'], 0], [call['op_j'], Lx * n - 1]]]
     if call['api'] == 'coupling':
         ops = [(call['op1'], 0, call['u1']), (call['op2'], call['dx'][0], call['u2'])]
     else:
@@ -147,13 +239,9 @@ def reference(orc, calls, explicit, n, Lx):
     odd = False
     nterms = 0
     for call in calls:
-        s = cplx(call['strength'])
-        T = np.zeros((orc.D, orc.D), complex)
-        for term in call_terms(call, n, Lx):
-            mat, parity = orc.term(term)
-            odd |= parity
-            T += s * mat
-            nterms += 1
+        T, o, cnt = call_dense(orc, call, n, Lx)
+        odd |= o
+        nterms += cnt
         if call['plus_hc']:
             H += T + T.conj().T
         elif explicit:
@@ -164,6 +252,8 @@ def reference(orc, calls, explicit, n, Lx):
 
 
 def is_nn(calls, n, Lx):
+    if any(c['api'] == 'exp' for c in calls):
+        return False
     return all(max(i for _, i in t) - min(i for _, i in t) <= 1 for c in calls for t in call_terms(c, n, Lx))
 
 
@@ -242,6 +332,65 @@ def gen_calls(rng, lat, quick, enumerate_pairs):
         if (len({(o[1][0], o[2]) for o in ops}) == 1) or max(dxs) - min(dxs) >= Lx:
             continue
         cases.append([dict(api='multi', strength=strength(), plus_hc=rng.random() < 0.6, ops=ops)])
+    # --- coverage round: the remaining entry points -------------------------------------------------------------
+    N = n * Lx
+    allw = [words[u][0] + words[u][1] for u in range(n)]
+    for _ in range(12 if quick else 120):      # add_onsite (even operators; odd ones must be rejected)
+        u = rng.randrange(n)
+        odd = bool(words[u][0]) and rng.random() < 0.2
+        cases.append([dict(api='onsite', strength=strength(), plus_hc=rng.random() < 0.5, u=u,
+                           op=rng.choice(words[u][0] if odd else words[u][1]))])
+    for _ in range(10 if quick else 100):      # add_onsite_term: literal operator on one MPS site
+        i = rng.randrange(N)
+        cases.append([dict(api='onsite_term', strength=strength(), plus_hc=rng.random() < 0.5, i=i,
+                           op=rng.choice(words[i % n][1]))])
+    for _ in range(25 if quick else 250):      # add_coupling_term: literal operator string, no automatic JW
+        i, j = sorted(rng.sample(range(N), 2))
+        fermi = atomic[i % n] and atomic[j % n] and rng.random() < 0.6
+        if fermi:
+            call = dict(op_i=rng.choice(atomic[i % n]) + ' JW', op_j=rng.choice(atomic[j % n]), op_string='JW')
+        else:
+            call = dict(op_i=rng.choice(allw[i % n]), op_j=rng.choice(allw[j % n]), op_string=rng.choice(['Id', 'Id', 'JW']))
+        cases.append([dict(api='coupling_term', strength=strength(), plus_hc=rng.random() < 0.6, i=i, j=j, **call)])
+    if N >= 3:
+        for _ in range(25 if quick else 250):  # add_multi_coupling_term: op_string as list or single name, switchLR
+            k = rng.choice([2, 3, 3, min(4, N)])
+            ijkl = sorted(rng.sample(range(N), k))
+            ops = [rng.choice(allw[i % n]) for i in ijkl]
+            strs = rng.choice(['Id', 'JW', [rng.choice(['Id', 'JW']) for _ in range(k - 1)], [rng.choice(['Id', 'JW']) for _ in range(k - 1)]])
+            cases.append([dict(api='multi_term', strength=strength(), plus_hc=rng.random() < 0.6, ijkl=ijkl, ops=ops,
+                               op_string=strs, switchLR=rng.choice(['middle_i', 'middle_op', ijkl[0], ijkl[-1]]))])
+    for _ in range(25 if quick else 250):      # add_coupling with explicit op_string / category / strength array
+        odd = rng.random() < 0.7
+        (w1, u1), (w2, u2) = rand_entry(odd), rand_entry(odd)
+        dx = rng.choice([-2, -1, 1, 1, 2])
+        if abs(dx) >= Lx:
+            continue
+        call = dict(api='coupling', strength=strength(), plus_hc=rng.random() < 0.6, u1=u1, op1=w1, u2=u2, op2=w2, dx=[dx],
+                    op_string='JW' if odd else 'Id')
+        if rng.random() < 0.5:
+            call['category'] = 'my category'
+        if rng.random() < 0.5:
+            call['strength_array'] = [rng.choice([1.0, -0.5, 2.0, 0.25]) for _ in range(Lx - abs(dx))]
+        cases.append([call])
+    if n == 1 and ferm_u:
+        for _ in range(10 if quick else 80):   # add_exponentially_decaying_coupling with fermionic / bosonic operators
+            odd = rng.random() < 0.7
+            w1 = rng.choice(words[0][0] if odd else words[0][1])
+            w2 = rng.choice(words[0][0] if odd else words[0][1])
+            lam = rng.choice([[0.5, 0.0], [-0.25, 0.0], [0.0, 0.5], [0.5, 0.25]])
+            cases.append([dict(api='exp', strength=strength(), plus_hc=rng.random() < 0.6, op_i=w1, op_j=w2, **{'lambda': lam})])
+    # the same category first for a two-site, then for a longer term: CouplingTerms -> MultiCouplingTerms conversion
+    locals2 = [c[0] for c in cases if c[0]['api'] == 'local' and len({tuple(i) for _, i in c[0]['term']}) == 2]
+    locals3 = [c[0] for c in cases if c[0]['api'] in ('local', 'multi') and len(c[0].get('term', c[0].get('ops'))) >= 3]
+    for _ in range(6 if quick else 60):
+        if locals2 and locals3:
+            cases.append([dict(rng.choice(locals2), category='shared'), dict(rng.choice(locals3), category='shared')])
+    cterms = [c[0] for c in cases if c[0]['api'] == 'coupling_term']
+    mterms = [c[0] for c in cases if c[0]['api'] == 'multi_term' and len(c[0]['ijkl']) >= 3]
+    for _ in range(4 if quick else 40):
+        if cterms and mterms:
+            cases.append([dict(rng.choice(cterms), category='shared2'), dict(rng.choice(mterms), category='shared2')])
     # --- several calls in one model
     singles = [c[0] for c in cases]
     for _ in range(15 if quick else 150):
@@ -293,10 +442,18 @@ def check_calls(res, lat_spec, lat, orc, calls, explicit):
         err = str(e)
     if odd or nterms == 0:
         multi_site = any(len({i for _, i in t}) >= 2 for c in calls for t in call_terms(c, n, Lx))
-        if err is None and odd and multi_site:
+        # odd products must be rejected: over several sites by the JW functions, on one site by add_onsite /
+        # add_local_term ("can't add onsite operator which needs a Jordan-Wigner string")
+        if err is None and odd and (multi_site or all(c['api'] in ('onsite', 'local') for c in calls)):
             res.fail('property', f'model.{apis}.odd-term-accepted', f'calls {calls}: odd fermion parity accepted', case)
         return
     if err is not None:
+        if 'hermitian conjugate of operator' in err and any(c['api'] == 'multi_term' and isinstance(c['op_string'], str)
+                                                             and c['plus_hc'] for c in calls):
+            res.fail('property', 'model.multi_term.plus_hc.single-name-op_string-rejected',
+                     f'add_multi_coupling_term(..., op_string=<single name>, plus_hc=True) raised ValueError ({err}); the same '
+                     f'call with plus_hc=False is accepted. calls {calls}', case)
+            return
         res.fail('property', f'model.{apis}.even-term-rejected', f'calls {calls}: ValueError {err}', case)
         return
     try:
@@ -309,8 +466,11 @@ def check_calls(res, lat_spec, lat, orc, calls, explicit):
             # an elementary product that vanishes identically (e.g. 'Cd Cd') or changes a conserved charge still
             # carries a formal charge tenpy cannot place in one MPO
             for c in calls:
-                for t in call_terms(c, n, Lx):
-                    mat, _ = orc.term(t)
+                if c['api'] in PLAIN_APIS or c['api'] in ('exp', 'onsite'):
+                    mats = [call_dense(orc, c, n, Lx)[0]]
+                else:
+                    mats = [orc.term(t)[0] for t in call_terms(c, n, Lx)]
+                for mat in mats:
                     if np.abs(mat).max() <= TOL or not charge_conserving(sites, mat):
                         fragile = True
         if fragile:
@@ -409,8 +569,48 @@ def _one_lattice(args):
     return res
 
 
+def check_model_errors(res):
+    """argument errors of the model API (documented ValueErrors)"""
+    lat = build_lattice([dict(cls='fermion', cons=None, filling=[1, 2]), dict(cls='spinHalf', cons=None)], 2)
+    case = {'part': 'model-errors'}
+    res.note_case(case, False)
+    bad = [
+        ('unknown onsite operator', lambda m: m.add_onsite(1., 0, 'Nope')),
+        ('unknown operator in add_coupling', lambda m: m.add_coupling(1., 0, 'Nope', 0, 'C', [1])),
+        ('unknown op_string', lambda m: m.add_coupling(1., 0, 'N', 0, 'N', [1], op_string='Nope')),
+        ('purely onsite coupling', lambda m: m.add_coupling(1., 0, 'N', 0, 'N', [0])),
+        ('one fermionic operator in add_coupling', lambda m: m.add_coupling(1., 0, 'C', 1, 'Sz', [0])),
+        ('odd number of fermionic operators in add_multi_coupling', lambda m: m.add_multi_coupling(1., [('C', [0], 0), ('N', [1], 0), ('Sz', [0], 1)])),
+        ('unknown operator in add_multi_coupling', lambda m: m.add_multi_coupling(1., [('Nope', [0], 0), ('N', [1], 0)])),
+        ('purely onsite multi coupling', lambda m: m.add_multi_coupling(1., [('N', [0], 0), ('N', [0], 0)])),
+        ('fermionic onsite operator', lambda m: m.add_onsite(1., 0, 'Cd')),
+        ('fermionic onsite local term', lambda m: m.add_local_term(1., [('Cd', (0, 0))])),
+        ('empty local term', lambda m: m.add_local_term(1., [])),
+        ('one fermionic operator in exponentially decaying coupling', lambda m: m.add_exponentially_decaying_coupling(1., 0.5, 'C', 'N', subsites=[0, 2])),
+    ]
+    for what, fn in bad:
+        m = make_model(lat, False)
+        try:
+            with warnings.catch_warnings():
+                warnings.simplefilter('ignore')
+                fn(m)
+            res.fail('property', 'model.invalid-argument-accepted', what + ': no ValueError', case)
+        except ValueError:
+            pass
+        except Exception as e:
+            res.fail('property', 'model.invalid-argument-accepted', f'{what}: {type(e).__name__}: {e}', case)
+    # zero strength: nothing is added, not even for undefined operators (documented shortcut)
+    m = make_model(lat, False)
+    m.add_onsite(0., 0, 'Nope')
+    m.add_coupling(0., 0, 'Nope', 0, 'Nope', [1])
+    m.add_multi_coupling(0., [('Nope', [0], 0), ('Nope', [1], 0)])
+    if m.onsite_terms or m.coupling_terms:
+        res.fail('property', 'model.zero-strength', 'terms added for strength 0', case)
+
+
 def run(ctx, n_lattices=None):
     res = core.Result()
+    check_model_errors(res)
     n = n_lattices or (7 if ctx.quick else 40)
     jobs = [(ctx.prop, ctx.tier, ctx.seed, ctx.budget_s, idx) for idx in range(n)]
     if ctx.quick:
